@@ -14,7 +14,7 @@
 use chia_consensus::additions_and_removals::additions_and_removals;
 use chia_consensus::consensus_constants::TEST_CONSTANTS;
 use chia_consensus::flags::ConsensusFlags;
-use chia_consensus::run_block_generator::{get_coinspends_for_trusted_block, run_block_generator, run_block_generator2};
+use chia_consensus::run_block_generator::{get_coinspends_for_trusted_block, get_coinspends_with_conditions_for_trusted_block, run_block_generator, run_block_generator2};
 use chia_protocol::Program;
 use clvm_traits::{ClvmEncoder, ToClvm, ToClvmError, clvm_curried_args};
 use clvm_utils::{
@@ -1228,6 +1228,22 @@ fn check_block(bytes: &[u8], want: &[H]) -> Result<Vec<Miss>, String> {
             }
         }
     }
+    let routine = "get_coinspends_with_conditions_for_trusted_block";
+    match catch(|| get_coinspends_with_conditions_for_trusted_block(&TEST_CONSTANTS, &Program::from(bytes.to_vec()), blocks, flags)) {
+        Err(p) => out.push(Miss { routine, kind: "panic", detail: format!("{routine} panicked: {p}") }),
+        Ok(Err(e)) => return Err(format!("{routine} rejected the harness generator: {e:?}")),
+        Ok(Ok(spends)) => {
+            if spends.len() != want.len() {
+                return Err(format!("{routine} reports {} spends, expected {}", spends.len(), want.len()));
+            }
+            for (cs, _) in &spends {
+                let i = (cs.coin.parent_coin_info.as_slice()[0] - 0xa0) as usize;
+                if cs.coin.puzzle_hash.as_slice() != want[i] {
+                    out.push(mismatch(routine, i, "puzzle hash", cs.coin.puzzle_hash.as_slice(), &want[i]));
+                }
+            }
+        }
+    }
     Ok(out)
 }
 
@@ -1252,7 +1268,7 @@ fn part_blocks(rep: &Report, n: usize, k: usize, spends: usize) {
                     acc.evals += 1;
                     let (bytes, want) = build_block(&mut ctx, &t, n, &sel, backrefs);
                     match check_block(&bytes, &want) {
-                        Ok(m) if m.is_empty() => acc.ok(if backrefs { "block/back-reference generator: 4 consumers ok" } else { "block/plain generator: 4 consumers ok" }),
+                        Ok(m) if m.is_empty() => acc.ok(if backrefs { "block/back-reference generator: 5 consumers ok" } else { "block/plain generator: 5 consumers ok" }),
                         Ok(m) => {
                             let case = json!({"kind": "block", "n": n, "k": k, "index": idx, "spends": sel, "backrefs": backrefs, "table": render_table(&t, n, k)});
                             acc.misses("block", m, &case);
@@ -1520,29 +1536,30 @@ fn run(rep: &Report) {
     // (n, k, with serialisations)
     let tables: Vec<(usize, usize, bool)> = t.pick(
         vec![(1, 4, true), (2, 4, true), (3, 4, true), (4, 3, true), (5, 2, false)],
-        vec![(1, 4, true), (2, 4, true), (3, 4, true), (4, 4, true), (5, 3, true), (5, 4, false), (6, 2, false)],
+        vec![(1, 4, true), (2, 4, true), (3, 4, true), (4, 4, true), (5, 3, true), (6, 2, false)],
     );
     // (n, k, sequence length)
-    let seqs: Vec<(usize, usize, usize)> = t.pick(vec![(4, 2, 3)], vec![(5, 2, 3)]);
+    let seqs: Vec<(usize, usize, usize)> = t.pick(vec![(4, 2, 3)], vec![(4, 3, 3), (5, 2, 2)]);
     // (n, k): complete state graph of every table
-    let mut graphs: Vec<(usize, usize)> = t.pick(vec![(1, 2), (2, 2), (3, 2), (3, 3)], vec![(1, 2), (2, 2), (3, 2), (4, 2), (3, 3), (4, 3)]);
+    let mut graphs: Vec<(usize, usize)> = t.pick(vec![(1, 2), (2, 2), (3, 2), (3, 3)], vec![(1, 2), (2, 2), (3, 2), (4, 2), (3, 3)]);
     if let Ok(g) = std::env::var("C17_GRAPHS") {
         graphs = g.split(',').filter_map(|x| x.split_once('x')).map(|(n, k)| (n.parse().unwrap(), k.parse().unwrap())).collect();
     }
     // (n, k, spends per generator)
-    let blocks: Vec<(usize, usize, usize)> = t.pick(vec![(1, 2, 3), (2, 2, 3), (3, 2, 3)], vec![(1, 2, 3), (2, 2, 4), (3, 2, 4), (4, 2, 3)]);
+    let blocks: Vec<(usize, usize, usize)> = t.pick(vec![(1, 2, 3), (2, 2, 3), (3, 2, 3)], vec![(1, 2, 3), (2, 2, 4), (3, 2, 4), (4, 2, 2)]);
     let bfs_depth = std::env::var("C17_DEPTH").ok().and_then(|s| s.parse().ok()).unwrap_or(64);
     let bfs_states = t.pick(2_000_000, 12_000_000);
     let max_extras: usize = std::env::var("C17_EXTRAS").ok().and_then(|s| s.parse().ok()).unwrap_or(t.pick(2, 3));
 
     rep.set_rule(&format!(
-        "E: the 24 precomputed constants; every leaf of a {}-element alphabet (contents nil, 00..1a, 7f, 80, ff, 2..5-byte integers around the small-atom limit, strings of 31..1000 bytes; constructors nil/one/new_atom/new_small_number/new_number/new_substr/new_concat, i.e. both the small-integer and the heap representation of the same bytes) as a root and in every ordered pair (x . y); every small-integer atom 0..{small_end}; every pair table p_i = (c_l . c_r), c in leaves + earlier pairs (all DAGs incl. unshared trees, duplicated equal pairs and unreachable pairs) for (pairs, leaves, serialisations) in {tables:?}, root = last pair; 10^5-deep and 10^5-long lists, perfect DAGs of depth 17/{}, a Fibonacci DAG; currying of every (program, args) over {} values for 0..4 arguments and over 4 values for 5..6; for (pairs, leaves, spends) in {blocks:?} every table x every list of that many spends whose puzzle reveals (f (q . (() . p_i))) carry the table's pairs, as a plain and as a back-reference generator, through run_block_generator, run_block_generator2, additions_and_removals and get_coinspends_for_trusted_block (puzzle hash and coin id of every spend). H: for (pairs, leaves) in {graphs:?} the COMPLETE state graph of every table under visit_tree(p_i)/tree_hash_cached(p_i) on one shared TreeCache (BFS until no new cache state appears: histories of any length); for (pairs, leaves, length) in {seqs:?} every table x every operation sequence of that length; the complete state graph (depth bound {bfs_depth}, fixpoint reported) of visit_tree/tree_hash_cached on the roots {{atom, p0..p4, e1..e{max_extras}}} of a fixed DAG plus 'allocate the next pair e_j' (pairs created after the cache was used; p5 never visited directly). States are deduplicated on (pairs allocated, pairs[], hashes[]) read through hook H2 (exact, no hashing). Oracle on every transition: returned hash = definition, and TreeCache::get of every pair is None or the definition's hash. distinct_nontrivial counts leaves, big structures, curry cases and fixed-DAG states only (tables, table-graph states and sequences are counted in the extras)",
+        "E: the 24 precomputed constants; every leaf of a {}-element alphabet (contents nil, 00..1a, 7f, 80, ff, 2..5-byte integers around the small-atom limit, strings of 31..1000 bytes; constructors nil/one/new_atom/new_small_number/new_number/new_substr/new_concat, i.e. both the small-integer and the heap representation of the same bytes) as a root and in every ordered pair (x . y); every small-integer atom in [0, {small_end}); every pair table p_i = (c_l . c_r), c in leaves + earlier pairs (all DAGs incl. unshared trees, duplicated equal pairs and unreachable pairs) for (pairs, leaves, serialisations) in {tables:?}, root = last pair; 10^5-deep and 10^5-long lists, perfect DAGs of depth 17/{}, a Fibonacci DAG; currying of every (program, args) over {} values for 0..4 arguments and over 4 values for 5..6; for (pairs, leaves, spends) in {blocks:?} every table x every list of that many spends whose puzzle reveals (f (q . (() . p_i))) carry the table's pairs, as a plain and as a back-reference generator, through run_block_generator (hashes computed by the CLVM ROM), run_block_generator2, additions_and_removals, get_coinspends_for_trusted_block and get_coinspends_with_conditions_for_trusted_block (one TreeCache across all puzzle reveals; puzzle hash and coin id of every spend). H: for (pairs, leaves) in {graphs:?} the COMPLETE state graph of every table under visit_tree(p_i)/tree_hash_cached(p_i) on one shared TreeCache (BFS until no new cache state appears: histories of any length); for (pairs, leaves, length) in {seqs:?} every table x every operation sequence of that length; the complete state graph (depth bound {bfs_depth}, fixpoint reported) of visit_tree/tree_hash_cached on the roots {{atom, p0..p4, e1..e{max_extras}}} of a fixed DAG plus 'allocate the next pair e_j' (pairs created after the cache was used; p5 never visited directly). States are deduplicated on (pairs allocated, pairs[], hashes[]) read through hook H2 (exact, no hashing). Oracle on every transition: returned hash = definition, and TreeCache::get of every pair is None or the definition's hash. distinct_nontrivial counts leaves, big structures, curry cases and fixed-DAG states only (tables, table-graph states and sequences are counted in the extras)",
         leaf_alphabet().len(),
         t.pick(12, 20),
         curry_values(t).len(),
     ));
     rep.assume("SHA-256 from the sha2 crate; the reference hash is the definition sha256(01||atom), sha256(02||H(first)||H(rest)) evaluated by the harness");
     rep.assume("clvmr (allocator, node_to_bytes_backrefs, node_from_bytes_backrefs) is trusted to build/serialise/parse nodes; every leaf's bytes are read back and compared, a back-reference serialisation is re-parsed before blaming /repo");
+    rep.assume("the generators built by the harness for the block consumers are valid (a rejection is reported as a machinery error, not as a violation)");
     rep.assume("a TreeCache is used with one append-only allocator (no restore_checkpoint below memoised nodes), as in run_block_generator");
 
     let timing = std::env::var("C17_TIMING").is_ok();
